@@ -35,9 +35,21 @@ props! {
     "C11" => c11,
     "C12" => c12,
     "C13" => c13,
+    "C14" => c14,
+    "C15" => c15,
     "C17" => c17,
+    "C19" => c19,
 }
 
+#[cfg(feature = "nightly")]
+pub mod prot;
+
+#[cfg(feature = "nightly")]
+pub fn worker(args: &[String]) -> i32 {
+    prot::worker(args)
+}
+
+#[cfg(not(feature = "nightly"))]
 pub fn worker(_args: &[String]) -> i32 {
     2
 }
